@@ -150,7 +150,8 @@ fn main() {
     report.stats.extra.insert("exhaustive_templates".into(), serde_json::Value::Object(per_template));
 
     // (2) generated scenarios
-    let cases: u32 = ctx.pick(25_000, 1_000_000);
+    // C01 cases are the dearest (heal loop; each non-converging known finding costs 200 rounds)
+    let cases: u32 = ctx.pick(if prop == "C01" { 30_000 } else { 50_000 }, 1_000_000);
     report.stats.extra.insert("generated_cases".into(), json!(cases));
     let strat = r#gen::strategy(prop, thorough);
     if let Some(f) = vcore::pt::run_cases(
